@@ -229,7 +229,7 @@ def gen_cases(ctx, rng, writes):
         n = rng.choice([0x10000 + 0x40, 0x18000 + 5, 0x28000])
         yield dict(huge=True, twl=rng.random() < 0.6, kind=rng.choice(['plain', 'window']), key=pyenv.rbytes(rng, 16).hex(), ctr=rng.getrandbits(100), n=n,
                    reads=[[rng.choice([1, 5, 16, 17, 0x21]), -1], [rng.choice([3, 0x10, 0x1F]), 0x10000 + rng.choice([1, 16, 0x123])], [0x8003, n]])
-    for _ in range(ctx.n(150, 4000)):
+    for _ in range(ctx.n(150, 2000)):
         kind = rng.choice(['plain', 'window'])
         sz = rng.choice([0, 1, 16, 17, 33, 48, 100])
         off = rng.choice([1, 16, 23]) if kind == 'window' else 0
@@ -242,7 +242,7 @@ def gen_cases(ctx, rng, writes):
             ops += [['s', 0, 0], ['r', -1]]
         yield dict(shared=True, twl=rng.random() < 0.5, kind=kind, off=off, sz=sz, base=pyenv.rbytes(rng, off + sz + (3 if kind == 'window' else 0)).hex(),
                    key=pyenv.rbytes(rng, 16).hex(), ctr=rng.getrandbits(120), late=late, ops=ops, seed=rng.randrange(1 << 30))
-    for _ in range(ctx.n(500, 20000)):
+    for _ in range(ctx.n(500, 12000)):
         case = cc.gen_case(rng, writes)
         # keep every reachable position (large cases seek up to 0x4000 + 17*12, writes extend) below 2^128 blocks
         case['ctr'] = min(case['ctr'], (1 << 128) - 1 - 2048)
